@@ -160,11 +160,499 @@ structure ImportOk (infos : List PInfo) (singles : List (Nat × Nat)) (named : N
   /-- every single-action infoset is covered -/
   covered : ∀ s ∈ singles, ∃ e ∈ named, e.1 = s.1 ∧ e.2 ≠ []
 
+/-! ### look-ups by key on tables with distinct keys -/
+
+theorem findIdx?_key_some {β : Type} (g : β → Nat) (k : Nat) (xs : List β) (hn : (xs.map g).Nodup)
+    (i : Nat) : xs.findIdx? (fun x => g x == k) = some i ↔ ∃ h : i < xs.length, g xs[i] = k := by
+  rw [List.findIdx?_eq_some_iff_getElem]
+  constructor
+  · rintro ⟨h, h1, _⟩
+    exact ⟨h, by simpa using h1⟩
+  · rintro ⟨h, h1⟩
+    refine ⟨h, by simpa using h1, ?_⟩
+    intro j hji hj
+    have hj' : g xs[j] = k := by simpa using hj
+    have : (xs.map g)[j]'(by simp; omega) = (xs.map g)[i]'(by simpa using h) := by
+      simp [h1, hj']
+    have := (hn.getElem_inj_iff).mp this
+    omega
+
+theorem findIdx?_key_none {β : Type} (g : β → Nat) (k : Nat) (xs : List β) :
+    xs.findIdx? (fun x => g x == k) = none ↔ k ∉ xs.map g := by
+  rw [List.findIdx?_eq_none_iff]
+  simp only [List.mem_map, not_exists, not_and, beq_eq_false_iff_ne, ne_eq]
+
+/-! ### "the last entry wins" as a recursion -/
+
+/-- run through the `(action, weight)` pairs, each overriding what was there before -/
+def ovr : List (Nat × α) → Nat → α → α
+  | [], _, d => d
+  | (b, p) :: xs, a, d => ovr xs a (if b = a then p else d)
+
+theorem ovr_append (xs ys : List (Nat × α)) (a : Nat) (d : α) :
+    ovr (xs ++ ys) a d = ovr ys a (ovr xs a d) := by
+  induction xs generalizing d with
+  | nil => rfl
+  | cons x xs ih => obtain ⟨b, p⟩ := x; simp only [List.cons_append, ovr, ih]
+
+theorem ovr_eq_find (xs : List (Nat × α)) (a : Nat) (d : α) :
+    ovr xs a d = match xs.reverse.find? (fun x => x.1 == a) with
+      | some x => x.2
+      | none => d := by
+  induction xs generalizing d with
+  | nil => rfl
+  | cons x xs ih =>
+    obtain ⟨b, p⟩ := x
+    rw [ovr, ih, List.reverse_cons, List.find?_append]
+    cases xs.reverse.find? (fun x => x.1 == a) with
+    | some y => simp
+    | none =>
+      by_cases hb : b = a
+      · simp [hb]
+      · simp [hb]
+
+theorem lastWeight_eq_ovr (named : Named α) (l a : Nat) :
+    lastWeight named l a = ovr (named.flatMap (fun e => if e.1 == l then e.2 else [])) a 0 := by
+  rw [ovr_eq_find]; rfl
+
+theorem ovr_nonneg (xs : List (Nat × α)) (a : Nat) (d : α) (hx : ∀ x ∈ xs, 0 ≤ x.2) (hd : 0 ≤ d) :
+    0 ≤ ovr xs a d := by
+  induction xs generalizing d with
+  | nil => exact hd
+  | cons x xs ih =>
+    obtain ⟨b, p⟩ := x
+    rw [ovr]
+    apply ih _ (fun y hy => hx y (List.mem_cons_of_mem _ hy))
+    split
+    · exact hx (b, p) List.mem_cons_self
+    · exact hd
+
+/-! ### the two state components in closed form -/
+
+/-- the weight table as a function of `(infoset label, action label)` -/
+def denseOf (infos : List PInfo) (W : Nat → Nat → α) : Strat α :=
+  infos.map (fun i => i.actions.map (W i.label))
+
+/-- the flags as a function of the single-action infoset label -/
+def seenOf (singles : List (Nat × Nat)) (S : Nat → Bool) : List Bool := singles.map (fun s => S s.1)
+
+theorem denseOf_congr (infos : List PInfo) (W W' : Nat → Nat → α)
+    (h : ∀ i ∈ infos, ∀ a ∈ i.actions, W i.label a = W' i.label a) :
+    denseOf infos W = denseOf infos W' := by
+  unfold denseOf
+  exact List.map_congr_left (fun i hi => List.map_congr_left (fun a ha => h i hi a ha))
+
+theorem seenOf_congr (singles : List (Nat × Nat)) (S S' : Nat → Bool)
+    (h : ∀ s ∈ singles, S s.1 = S' s.1) : seenOf singles S = seenOf singles S' := by
+  unfold seenOf
+  exact List.map_congr_left h
+
+theorem setWeight_denseOf (infos : List PInfo) (singles : List (Nat × Nat)) (hw : TablesWF infos singles)
+    (W : Nat → Nat → α) (i : Nat) (hi : i < infos.length) (ai : Nat) (hai : ai < infos[i].actions.length)
+    (p : α) :
+    setWeight (denseOf infos W) i ai p
+      = denseOf infos (fun l a => if l = infos[i].label ∧ a = infos[i].actions[ai] then p else W l a) := by
+  unfold setWeight denseOf
+  apply List.ext_getElem
+  · simp
+  · intro j h1 h2
+    have hj : j < infos.length := by simpa using h2
+    rw [List.getElem_modify]
+    simp only [List.getElem_map]
+    by_cases hij : i = j
+    · subst hij
+      simp only [if_true]
+      apply List.ext_getElem
+      · simp
+      · intro k h3 h4
+        have hk : k < infos[i].actions.length := by simpa using h4
+        rw [List.getElem_set]
+        simp only [List.getElem_map, true_and]
+        have hnd := hw.actionsNodup _ (List.getElem_mem hi)
+        by_cases hk' : ai = k
+        · subst hk'; simp
+        · have : ¬ infos[i].actions[k] = infos[i].actions[ai] := by
+            intro h; exact hk' ((hnd.getElem_inj_iff).mp h).symm
+          simp [hk', this]
+    · simp only [hij, if_false]
+      have hne : ¬ infos[j].label = infos[i].label := by
+        intro h
+        have : (infos.map (·.label))[j]'(by simpa using hj) = (infos.map (·.label))[i]'(by simpa using hi) := by
+          simpa using h
+        exact hij ((hw.labelsNodup.getElem_inj_iff).mp this).symm
+      simp [hne]
+
+theorem seenOf_set (singles : List (Nat × Nat)) (hn : (singles.map (·.1)).Nodup) (S : Nat → Bool)
+    (si : Nat) (hsi : si < singles.length) (b : Bool) :
+    (seenOf singles S).set si b = seenOf singles (fun l => if l = singles[si].1 then b else S l) := by
+  unfold seenOf
+  apply List.ext_getElem
+  · simp
+  · intro j h1 h2
+    have hj : j < singles.length := by simpa using h2
+    rw [List.getElem_set]
+    simp only [List.getElem_map]
+    by_cases hij : si = j
+    · subst hij; simp
+    · have hne : ¬ singles[j].1 = singles[si].1 := by
+        intro h
+        have : (singles.map (·.1))[j]'(by simpa using hj) = (singles.map (·.1))[si]'(by simpa using hsi) := by
+          simpa using h
+        exact hij ((hn.getElem_inj_iff).mp this).symm
+      simp [hij, hne]
+
+theorem seenOf_getD (singles : List (Nat × Nat)) (S : Nat → Bool) (si : Nat) (hsi : si < singles.length) :
+    (seenOf singles S).getD si false = S singles[si].1 := by
+  simp [seenOf, List.getD_eq_getElem?_getD, hsi]
+
+/-! ### the inner loops -/
+
+theorem importActions_spec (infos : List PInfo) (singles : List (Nat × Nat)) (hw : TablesWF infos singles)
+    (i : Nat) (hi : i < infos.length) (l : List (Nat × α)) (W : Nat → Nat → α) (d : Strat α) :
+    importActions (fun f l => l.findIdx? f) infos[i].actions i l (denseOf infos W) = .ok d ↔
+      (∀ x ∈ l, 0 ≤ x.2 ∧ x.1 ∈ infos[i].actions) ∧
+      d = denseOf infos (fun lab a => if lab = infos[i].label then ovr l a (W lab a) else W lab a) := by
+  induction l generalizing W with
+  | nil =>
+    simp only [importActions, ovr, ite_self, List.not_mem_nil, false_imp_iff, implies_true, true_and,
+      Except.ok.injEq]
+    exact eq_comm
+  | cons x rest ih =>
+    obtain ⟨a, p⟩ := x
+    simp only [importActions, probOk, isFinite_exact, Bool.and_true, decide_eq_true_eq,
+      List.forall_mem_cons]
+    by_cases hp : 0 ≤ p
+    · simp only [hp, if_true, true_and]
+      cases hf : infos[i].actions.findIdx? (fun x => x == a) with
+      | none =>
+        have : a ∉ infos[i].actions := by
+          have := (findIdx?_key_none id a infos[i].actions).mp hf
+          simpa using this
+        simp [this]
+      | some ai =>
+        obtain ⟨hai, hact⟩ := (findIdx?_key_some id a infos[i].actions
+          (by simpa using hw.actionsNodup _ (List.getElem_mem hi)) ai).mp hf
+        simp only [id] at hact
+        have hmem : a ∈ infos[i].actions := hact ▸ List.getElem_mem hai
+        simp only [hmem, true_and]
+        rw [setWeight_denseOf infos singles hw W i hi ai hai p, ih]
+        have : (fun lab b => if lab = infos[i].label then
+              ovr rest b (if lab = infos[i].label ∧ b = infos[i].actions[ai] then p else W lab b)
+            else if lab = infos[i].label ∧ b = infos[i].actions[ai] then p else W lab b)
+            = (fun lab b => if lab = infos[i].label then ovr ((a, p) :: rest) b (W lab b) else W lab b) := by
+          funext lab b
+          by_cases hl : lab = infos[i].label
+          · simp only [hl, true_and, if_true, ovr, hact]
+            by_cases hb : b = a
+            · simp [hb]
+            · have : ¬ a = b := fun h => hb h.symm
+              simp [hb, this]
+          · simp [hl]
+        rw [this]
+    · simp [hp]
+
+theorem importSingle_spec (act : Nat) (l : List (Nat × α)) (seen b : Bool) :
+    importSingle act l seen = .ok b ↔
+      (∀ x ∈ l, x.1 = act ∧ 0 ≤ x.2) ∧ b = (seen || !l.isEmpty) := by
+  induction l generalizing seen with
+  | nil => simp [importSingle, eq_comm]
+  | cons x rest ih =>
+    obtain ⟨a, p⟩ := x
+    simp only [importSingle, probOk, isFinite_exact, Bool.and_true, decide_eq_true_eq,
+      List.forall_mem_cons]
+    by_cases ha : a = act
+    · by_cases hp : 0 ≤ p
+      · simp [ha, hp, ih]
+      · simp [ha, hp]
+    · simp [ha]
+
+
+/-! ### the outer loop -/
+
+/-- what the loop demands of one entry -/
+def EntryOk (infos : List PInfo) (singles : List (Nat × Nat)) (e : Nat × List (Nat × α)) : Prop :=
+  (∃ i ∈ infos, i.label = e.1 ∧ ∀ x ∈ e.2, 0 ≤ x.2 ∧ x.1 ∈ i.actions) ∨
+  (e.1 ∉ infos.map (·.label) ∧ ∃ s ∈ singles, s.1 = e.1 ∧ ∀ x ∈ e.2, x.1 = s.2 ∧ 0 ≤ x.2)
+
+theorem importLoop_spec (infos : List PInfo) (singles : List (Nat × Nat)) (hw : TablesWF infos singles)
+    (named : Named α) (W : Nat → Nat → α) (S : Nat → Bool) (r : Strat α × List Bool) :
+    importLoop (fun f l => l.findIdx? f) (fun f l => l.findIdx? f) (fun f l => l.findIdx? f)
+        infos singles named (denseOf infos W) (seenOf singles S) = .ok r ↔
+      (∀ e ∈ named, EntryOk infos singles e) ∧
+      r = (denseOf infos (fun l a => ovr (named.flatMap (fun e => if e.1 == l then e.2 else [])) a (W l a)),
+           seenOf singles (fun l => S l || named.any (fun e => e.1 == l && !e.2.isEmpty))) := by
+  induction named generalizing W S with
+  | nil =>
+    simp only [importLoop, List.not_mem_nil, false_imp_iff, implies_true, true_and, List.flatMap_nil,
+      ovr, List.any_nil, Bool.or_false, Except.ok.injEq]
+    exact eq_comm
+  | cons e rest ih =>
+    obtain ⟨l, acts⟩ := e
+    simp only [importLoop, List.forall_mem_cons]
+    cases hfi : infos.findIdx? (fun x => x.label == l) with
+    | some i =>
+      obtain ⟨hi, hlab⟩ := (findIdx?_key_some (·.label) l infos hw.labelsNodup i).mp hfi
+      have hgetD : infos.getD i default = infos[i] := by simp [List.getD_eq_getElem?_getD, hi]
+      have hentry : EntryOk infos singles (l, acts) ↔ ∀ x ∈ acts, 0 ≤ x.2 ∧ x.1 ∈ infos[i].actions := by
+        constructor
+        · rintro (⟨i', hi', hl', hx⟩ | ⟨hnot, _⟩)
+          · have : i' = infos[i] :=
+              List.inj_on_of_nodup_map hw.labelsNodup hi' (List.getElem_mem hi) (by rw [hl', hlab])
+            exact this ▸ hx
+          · exact absurd (List.mem_map.mpr ⟨infos[i], List.getElem_mem hi, hlab⟩) hnot
+        · intro hx
+          exact Or.inl ⟨infos[i], List.getElem_mem hi, hlab, hx⟩
+      simp only [hgetD, hentry]
+      cases himp : importActions (fun f l => l.findIdx? f) infos[i].actions i acts (denseOf infos W) with
+      | error err =>
+        refine ⟨nofun, ?_⟩
+        rintro ⟨⟨hx, _⟩, _⟩
+        have := (importActions_spec infos singles hw i hi acts W _).mpr ⟨hx, rfl⟩
+        rw [himp] at this
+        cases this
+      | ok d =>
+        obtain ⟨hx, rfl⟩ := (importActions_spec infos singles hw i hi acts W d).mp himp
+        simp only [ih]
+        have h1 : denseOf infos (fun l' a => ovr (rest.flatMap (fun e => if e.1 == l' then e.2 else [])) a
+              (if l' = infos[i].label then ovr acts a (W l' a) else W l' a))
+            = denseOf infos (fun l' a =>
+                ovr (((l, acts) :: rest).flatMap (fun e => if e.1 == l' then e.2 else [])) a (W l' a)) := by
+          congr 1
+          funext l' a
+          rw [List.flatMap_cons, ovr_append]
+          by_cases hl : l' = infos[i].label
+          · simp [hl, hlab]
+          · have : ¬ l = l' := fun h => hl (by rw [← h, hlab])
+            simp [hl, this, ovr]
+        have h2 : seenOf singles (fun l' => S l' || rest.any (fun e => e.1 == l' && !e.2.isEmpty))
+            = seenOf singles (fun l' => S l' || ((l, acts) :: rest).any (fun e => e.1 == l' && !e.2.isEmpty)) := by
+          apply seenOf_congr
+          intro s hs
+          have : (l == s.1) = false := by
+            rw [beq_eq_false_iff_ne]
+            intro h
+            exact hw.disjoint l (List.mem_map.mpr ⟨infos[i], List.getElem_mem hi, hlab⟩)
+              (List.mem_map.mpr ⟨s, hs, h.symm⟩)
+          simp [this]
+        rw [h1, h2, and_iff_right hx]
+    | none =>
+      have hnot : l ∉ infos.map (·.label) := (findIdx?_key_none (·.label) l infos).mp hfi
+      cases hfs : singles.findIdx? (fun x => x.1 == l) with
+      | none =>
+        have hnots : l ∉ singles.map (·.1) := (findIdx?_key_none (·.1) l singles).mp hfs
+        refine ⟨nofun, ?_⟩
+        rintro ⟨⟨(⟨i', hi', hl', _⟩ | ⟨_, s, hs, hl', _⟩), _⟩, _⟩
+        · exact absurd (List.mem_map.mpr ⟨i', hi', hl'⟩) hnot
+        · exact absurd (List.mem_map.mpr ⟨s, hs, hl'⟩) hnots
+      | some si =>
+        obtain ⟨hsi, hlab⟩ := (findIdx?_key_some (·.1) l singles hw.singlesNodup si).mp hfs
+        have hgetD : singles.getD si default = singles[si] := by simp [List.getD_eq_getElem?_getD, hsi]
+        have hentry : EntryOk infos singles (l, acts) ↔ ∀ x ∈ acts, x.1 = singles[si].2 ∧ 0 ≤ x.2 := by
+          constructor
+          · rintro (⟨i', hi', hl', _⟩ | ⟨_, s, hs, hl', hx⟩)
+            · exact absurd (List.mem_map.mpr ⟨i', hi', hl'⟩) hnot
+            · have : s = singles[si] :=
+                List.inj_on_of_nodup_map hw.singlesNodup hs (List.getElem_mem hsi) (by rw [hl', hlab])
+              exact this ▸ hx
+          · intro hx
+            exact Or.inr ⟨hnot, singles[si], List.getElem_mem hsi, hlab, hx⟩
+        simp only [hgetD, hentry, seenOf_getD singles S si hsi]
+        cases himp : importSingle singles[si].2 acts (S singles[si].1) with
+        | error err =>
+          refine ⟨nofun, ?_⟩
+          rintro ⟨⟨hx, _⟩, _⟩
+          have := (importSingle_spec singles[si].2 acts (S singles[si].1) _).mpr ⟨hx, rfl⟩
+          rw [himp] at this
+          cases this
+        | ok b =>
+          obtain ⟨hx, rfl⟩ := (importSingle_spec singles[si].2 acts (S singles[si].1) b).mp himp
+          simp only [seenOf_set singles hw.singlesNodup S si hsi, ih]
+          have h1 : denseOf infos (fun l' a => ovr (rest.flatMap (fun e => if e.1 == l' then e.2 else [])) a (W l' a))
+              = denseOf infos (fun l' a =>
+                  ovr (((l, acts) :: rest).flatMap (fun e => if e.1 == l' then e.2 else [])) a (W l' a)) := by
+            apply denseOf_congr
+            intro i' hi' a _
+            have : ¬ l = i'.label := fun h => hnot (List.mem_map.mpr ⟨i', hi', h.symm⟩)
+            simp [List.flatMap_cons, this]
+          have h2 : seenOf singles (fun l' => (if l' = singles[si].1 then (S singles[si].1 || !acts.isEmpty) else S l')
+                || rest.any (fun e => e.1 == l' && !e.2.isEmpty))
+              = seenOf singles (fun l' => S l' || ((l, acts) :: rest).any (fun e => e.1 == l' && !e.2.isEmpty)) := by
+            congr 1
+            funext l'
+            by_cases hl : l' = singles[si].1
+            · simp [hl, hlab, Bool.or_assoc]
+            · have : (l == l') = false := by
+                rw [beq_eq_false_iff_ne]
+                exact fun h => hl (by rw [← h, hlab])
+              simp [hl, this]
+          rw [h1, h2, and_iff_right hx]
+
+/-! ### normalisation -/
+
+theorem importFinish_spec (dense σ : Strat α) :
+    importFinish dense = .ok σ ↔
+      (∀ v ∈ dense, v.sum ≠ 0) ∧ σ = dense.map (fun v => v.map (· / v.sum)) := by
+  induction dense generalizing σ with
+  | nil => simp [importFinish, eq_comm]
+  | cons v vs ih =>
+    simp only [importFinish, lsum_eq_sum, beq_iff_eq, List.forall_mem_cons, List.map_cons]
+    by_cases hv : v.sum = 0
+    · simp [hv]
+    · simp only [hv, if_false, ne_eq, not_false_eq_true, true_and]
+      cases hf : importFinish vs with
+      | error err =>
+        refine ⟨nofun, ?_⟩
+        rintro ⟨h, _⟩
+        have := (ih _).mpr ⟨h, rfl⟩
+        rw [hf] at this
+        cases this
+      | ok r =>
+        obtain ⟨h, rfl⟩ := (ih r).mp hf
+        constructor
+        · intro h'
+          cases h'
+          exact ⟨h, rfl⟩
+        · rintro ⟨_, rfl⟩
+          rfl
+
+/-! ### the whole import -/
+
+theorem entriesOk_iff (infos : List PInfo) (singles : List (Nat × Nat)) (hw : TablesWF infos singles)
+    (named : Named α) :
+    (∀ e ∈ named, EntryOk infos singles e) ↔
+      (∀ e ∈ named, e.1 ∈ infos.map (·.label) ∨ e.1 ∈ singles.map (·.1)) ∧
+      (∀ e ∈ named, ∀ x ∈ e.2,
+        (∀ i ∈ infos, i.label = e.1 → x.1 ∈ i.actions) ∧ (∀ s ∈ singles, s.1 = e.1 → x.1 = s.2)) ∧
+      (∀ e ∈ named, ∀ x ∈ e.2, 0 ≤ x.2) := by
+  constructor
+  · intro h
+    refine ⟨?_, ?_, ?_⟩
+    · intro e he
+      rcases h e he with ⟨i, hi, hl, _⟩ | ⟨_, s, hs, hl, _⟩
+      · exact Or.inl (List.mem_map.mpr ⟨i, hi, hl⟩)
+      · exact Or.inr (List.mem_map.mpr ⟨s, hs, hl⟩)
+    · intro e he x hx
+      rcases h e he with ⟨i, hi, hl, hall⟩ | ⟨hnot, s, hs, hl, hall⟩
+      · refine ⟨?_, ?_⟩
+        · intro i' hi' hl'
+          have : i' = i := List.inj_on_of_nodup_map hw.labelsNodup hi' hi (by rw [hl', hl])
+          exact this ▸ (hall x hx).2
+        · intro s hs hl'
+          exact absurd (List.mem_map.mpr ⟨s, hs, hl'⟩)
+            (hw.disjoint e.1 (List.mem_map.mpr ⟨i, hi, hl⟩))
+      · refine ⟨?_, ?_⟩
+        · intro i' hi' hl'
+          exact absurd (List.mem_map.mpr ⟨i', hi', hl'⟩) hnot
+        · intro s' hs' hl'
+          have : s' = s := List.inj_on_of_nodup_map hw.singlesNodup hs' hs (by rw [hl', hl])
+          exact this ▸ (hall x hx).1
+    · intro e he x hx
+      rcases h e he with ⟨i, hi, hl, hall⟩ | ⟨hnot, s, hs, hl, hall⟩
+      · exact (hall x hx).1
+      · exact (hall x hx).2
+  · rintro ⟨hk, hl, hn⟩ e he
+    rcases hk e he with h | h
+    · obtain ⟨i, hi, hil⟩ := List.mem_map.mp h
+      exact Or.inl ⟨i, hi, hil, fun x hx => ⟨hn e he x hx, (hl e he x hx).1 i hi hil⟩⟩
+    · obtain ⟨s, hs, hsl⟩ := List.mem_map.mp h
+      refine Or.inr ⟨?_, s, hs, hsl, fun x hx => ⟨(hl e he x hx).2 s hs hsl, hn e he x hx⟩⟩
+      intro h'
+      exact hw.disjoint e.1 h' h
+
+/-- the scan-based import in closed form -/
+theorem stratIntoBoxSlow_spec (infos : List PInfo) (singles : List (Nat × Nat)) (named : Named α)
+    (hw : TablesWF infos singles) (σ : Strat α) :
+    stratIntoBoxSlow infos singles named = .ok σ ↔
+      (∀ e ∈ named, EntryOk infos singles e) ∧
+      (∀ i ∈ infos, (i.actions.map (lastWeight named i.label)).sum ≠ 0) ∧
+      (∀ s ∈ singles, ∃ e ∈ named, e.1 = s.1 ∧ e.2 ≠ []) ∧
+      σ = infos.map (fun i =>
+        (i.actions.map (lastWeight named i.label)).map
+          (· / (i.actions.map (lastWeight named i.label)).sum)) := by
+  have hd0 : infos.map (fun i => List.replicate i.actions.length (0 : α)) = denseOf infos (fun _ _ => 0) := by
+    unfold denseOf
+    simp only [List.map_const']
+  have hs0 : List.replicate singles.length false = seenOf singles (fun _ => false) := by
+    unfold seenOf
+    simp only [List.map_const']
+  have hlw : (fun l a => ovr (named.flatMap (fun e => if e.1 == l then e.2 else [])) a (0 : α))
+      = lastWeight named := by
+    funext l a
+    exact (lastWeight_eq_ovr named l a).symm
+  unfold stratIntoBoxSlow importWith
+  simp only [hd0, hs0]
+  cases hloop : importLoop (fun f l => l.findIdx? f) (fun f l => l.findIdx? f) (fun f l => l.findIdx? f)
+      infos singles named (denseOf infos (fun _ _ => (0 : α))) (seenOf singles (fun _ => false)) with
+  | error err =>
+    refine ⟨nofun, ?_⟩
+    rintro ⟨h, _⟩
+    have := (importLoop_spec infos singles hw named (fun _ _ => 0) (fun _ => false) _).mpr ⟨h, rfl⟩
+    rw [hloop] at this
+    cases this
+  | ok r =>
+    obtain ⟨hent, rfl⟩ := (importLoop_spec infos singles hw named _ _ r).mp hloop
+    simp only [hlw, Bool.false_or]
+    have hseen : (seenOf singles (fun l => named.any (fun e => e.1 == l && !e.2.isEmpty))).all id = true ↔
+        ∀ s ∈ singles, ∃ e ∈ named, e.1 = s.1 ∧ e.2 ≠ [] := by
+      simp only [seenOf, List.all_eq_true, List.mem_map, id, forall_exists_index, and_imp,
+        forall_apply_eq_imp_iff₂, List.any_eq_true, Bool.and_eq_true, beq_iff_eq, Bool.not_eq_true',
+        List.isEmpty_eq_false_iff, ne_eq]
+    have hsum : (∀ v ∈ denseOf infos (lastWeight named), v.sum ≠ 0) ↔
+        ∀ i ∈ infos, (i.actions.map (lastWeight named i.label)).sum ≠ 0 := by
+      simp only [denseOf, List.mem_map, forall_exists_index, and_imp, forall_apply_eq_imp_iff₂]
+    have hmap : (denseOf infos (lastWeight named)).map (fun v => v.map (· / v.sum))
+        = infos.map (fun i => (i.actions.map (lastWeight named i.label)).map
+            (· / (i.actions.map (lastWeight named i.label)).sum)) := by
+      simp only [denseOf, List.map_map, Function.comp_def]
+    cases hfin : importFinish (denseOf infos (lastWeight named)) with
+    | error err =>
+      refine ⟨nofun, ?_⟩
+      rintro ⟨_, h, _, _⟩
+      have := (importFinish_spec _ _).mpr ⟨hsum.mpr h, rfl⟩
+      rw [hfin] at this
+      cases this
+    | ok r =>
+      obtain ⟨h, rfl⟩ := (importFinish_spec _ r).mp hfin
+      rw [hmap]
+      by_cases hall : (seenOf singles (fun l => named.any (fun e => e.1 == l && !e.2.isEmpty))).all id = true
+      · simp only [hall, if_true]
+        constructor
+        · intro h'
+          cases h'
+          exact ⟨hent, hsum.mp h, hseen.mp hall, rfl⟩
+        · rintro ⟨_, _, _, rfl⟩
+          rfl
+      · simp only [hall]
+        refine ⟨nofun, ?_⟩
+        rintro ⟨_, _, h', _⟩
+        exact absurd (hseen.mpr h') hall
+
+theorem lastWeight_nonneg (named : Named α) (hn : ∀ e ∈ named, ∀ x ∈ e.2, 0 ≤ x.2) (l a : Nat) :
+    0 ≤ lastWeight named l a := by
+  rw [lastWeight_eq_ovr]
+  apply ovr_nonneg _ _ _ _ le_rfl
+  intro x hx
+  obtain ⟨e, he, hxe⟩ := List.mem_flatMap.mp hx
+  split at hxe
+  · exact hn e he x hxe
+  · simp at hxe
+
 /-- **import succeeds exactly when the rules hold** -/
 theorem import_ok_iff (infos : List PInfo) (singles : List (Nat × Nat)) (named : Named α)
     (hw : TablesWF infos singles) :
     (∃ σ, stratIntoBoxSlow infos singles named = .ok σ) ↔ ImportOk infos singles named := by
-  sorry
+  simp only [stratIntoBoxSlow_spec infos singles named hw, entriesOk_iff infos singles hw named]
+  constructor
+  · rintro ⟨σ, ⟨hk, hl, hn⟩, hsum, hcov, _⟩
+    refine ⟨hk, hl, hn, ?_, hcov⟩
+    intro i hi
+    apply lt_of_le_of_ne _ (hsum i hi).symm
+    apply List.sum_nonneg
+    intro x hx
+    obtain ⟨a, _, rfl⟩ := List.mem_map.mp hx
+    exact lastWeight_nonneg named hn _ _
+  · intro h
+    exact ⟨_, ⟨h.knownInfosets, h.legalActions, h.nonneg⟩, fun i hi => (h.positive i hi).ne', h.covered, rfl⟩
 
 /-- **the result gives each action its weight divided by the infoset total** (unspecified
 actions zero, a repeated entry overriding the earlier one) -/
@@ -172,14 +660,33 @@ theorem import_result (infos : List PInfo) (singles : List (Nat × Nat)) (named 
     (hw : TablesWF infos singles) (σ : Strat α) (h : stratIntoBoxSlow infos singles named = .ok σ) :
     σ = infos.map (fun i =>
       (i.actions.map (lastWeight named i.label)).map
-        (· / (i.actions.map (lastWeight named i.label)).sum)) := by
-  sorry
+        (· / (i.actions.map (lastWeight named i.label)).sum)) :=
+  ((stratIntoBoxSlow_spec infos singles named hw σ).mp h).2.2.2
+
+theorem import_sum_map_div (v : List α) (t : α) : (v.map (· / t)).sum = v.sum / t := by
+  induction v with
+  | nil => simp
+  | cons x xs ih => simp only [List.map_cons, List.sum_cons, ih, add_div]
 
 /-- the result of a successful import is a valid strategy that fits the table -/
 theorem import_valid (infos : List PInfo) (singles : List (Nat × Nat)) (named : Named α)
     (hw : TablesWF infos singles) (σ : Strat α) (h : stratIntoBoxSlow infos singles named = .ok σ) :
     IsStrat σ ∧ Fits infos σ := by
-  sorry
+  have hok : ImportOk infos singles named := (import_ok_iff infos singles named hw).mp ⟨σ, h⟩
+  have hσ := import_result infos singles named hw σ h
+  subst hσ
+  constructor
+  · intro v hv
+    obtain ⟨i, hi, rfl⟩ := List.mem_map.mp hv
+    have hpos := hok.positive i hi
+    constructor
+    · intro p hp
+      obtain ⟨w, hwm, rfl⟩ := List.mem_map.mp hp
+      obtain ⟨a, _, rfl⟩ := List.mem_map.mp hwm
+      exact div_nonneg (lastWeight_nonneg named hok.nonneg _ _) hpos.le
+    · rw [import_sum_map_div, div_self hpos.ne']
+  · unfold Fits
+    simp only [List.map_map, Function.comp_def, List.length_map]
 
 /-! ## non-vacuity -/
 
